@@ -84,7 +84,8 @@ func fromAPI(key *ecdsa.PrivateKey, seq uint64, entries ...enr.Entry) Base {
 		r.Set(e)
 	}
 	if err := enode.SignV4(&r, key); err != nil {
-		tl.Fatal("SignV4: %v", err)
+		// the real code refuses to sign (or to verify its own signature on) a well-formed record
+		return Base{Note: "SignV4 failed: " + err.Error()}
 	}
 	raw, err := rlp.EncodeToBytes(&r)
 	if err != nil {
@@ -95,18 +96,22 @@ func fromAPI(key *ecdsa.PrivateKey, seq uint64, entries ...enr.Entry) Base {
 		Pub: rb.FromBytes(crypto.CompressPubkey(&key.PublicKey)), Valid: true}
 }
 
-func makeBases(seed int64) []Base {
+func makeBases(seed int64, sum *tl.Summary) []Base {
 	r := tl.Rand(seed)
 	k1, k2 := detKey(r), detKey(r)
 	var out []Base
+	add := func(b Base, note string) {
+		if len(b.Raw) == 0 {
+			sum.Violate("enode.SignV4 fails on a well-formed record ("+note+"): "+b.Note, tl.M{"record": note})
+			return
+		}
+		b.Note = note
+		out = append(out, b)
+	}
 	// 1: minimal v4 record, signed through the API
-	b := fromAPI(k1, 1)
-	b.Note = "minimal"
-	out = append(out, b)
+	add(fromAPI(k1, 1), "minimal")
 	// 2: typical record with endpoint entries and a multi-byte seq
-	b = fromAPI(k2, 0x0102, enr.IPv4{127, 0, 0, 1}, enr.UDP(30303), enr.TCP(30303))
-	b.Note = "endpoint"
-	out = append(out, b)
+	add(fromAPI(k2, 0x0102, enr.IPv4{127, 0, 0, 1}, enr.UDP(30303), enr.TCP(30303)), "endpoint")
 	// 3: exactly 300 bytes, crafted (generic padding entry "pad" between "id" and "secp256k1")
 	for _, want := range []int{300, 301} {
 		valid := want <= 300
